@@ -8,7 +8,8 @@ string get_bb_uid () { return "Backbone"; }
 int valid_seteuid (object ob, string newuid) { return 1; }
 int valid_read (string path, mixed who, string fn) { return 1; }
 int valid_write (string path, mixed who, string fn) { return 1; }
-int valid_save_binary (string file) { return 1; }
+// saving is refused for a program while the marker file /c17/nosave<program file> exists (a case creates it with `file`)
+int valid_save_binary (string file) { return file_size ("/c17/nosave" + file) < 0; }
 
 string error_handler (mapping m, int caught) {
   string e = m["error"];
